@@ -680,6 +680,16 @@ Theorem C04_tucker_normalize_result_valid : forall (F : Type) (Op : fops F) tape
 Proof. exact @tucker_normalize_api_accepts. Qed.
 Print Assumptions C04_tucker_normalize_result_valid.
 
+(* NumPy broadcasting in tucker_normalize (tucker_normalize_bc, the model for ANY (core, factors)): on a core whose mode i has as many
+   entries as the scale vector nothing is stretched -- the shape is kept and entry idx is multiplied by scales[idx_i], which is the
+   step of tucker_normalize of Model/Transforms.v *)
+Theorem C04_tucker_bc_step : forall (F : Type) (Op : fops F) i (sc : list F) (core : tensor F),
+  i < length (shape core) -> length sc = nth i (shape core) 0 ->
+  exists t, tk_norm_step Op i sc core = Ok t /\ shape t = shape core /\
+    forall idx, inb (shape core) idx -> tget Op t idx = fmul Op (tget Op core idx) (vget Op sc (nth i idx 0)).
+Proof. exact @tk_norm_step_valid. Qed.
+Print Assumptions C04_tucker_bc_step.
+
 (* the orthonormality test of the Parafac2Tensor constructor cannot tell L P from P when L has orthonormal columns -- for ANY
    entry test `close` (exact, 1e-5, ...): the two Gram matrices are equal in every commutative ring *)
 Theorem C04_projection_test_invariant : forall (F : Type) (Op : fops F) (close : F -> F -> bool),
